@@ -83,6 +83,50 @@ theorem lookForFix_partition (W : World) (ref : String) (goodTree : Nat)
               have := key _ _ _ _ _ h
               cases this
 
+/-- the new queue only contains elements of the initial new queue and of the searched queue -/
+theorem lookForFix_sub (W : World) (ref : String) (goodTree : Nat)
+    (q newQ : List Nat) (bad : Bool) (f : Nat) (nq : List Nat)
+    (h : W.lookForFix ref goodTree q newQ bad = (some f, false, nq)) :
+    ∀ k ∈ nq, (∀ x ∈ newQ, False) → k ∈ q := by
+  have gen : ∀ (q newQ : List Nat) (bad : Bool) (b : Bool), W.lookForFix ref goodTree q newQ bad = (some f, b, nq) →
+      ∀ k ∈ nq, k ∈ newQ ∨ k ∈ q := by
+    intro q
+    induction q with
+    | nil => intro newQ bad b h; simp [lookForFix] at h
+    | cons j rest ih =>
+      intro newQ bad b h k hk
+      unfold lookForFix at h
+      split at h
+      · rcases ih _ _ _ h k hk with h1 | h1
+        · exact Or.inl h1
+        · exact Or.inr (List.mem_cons_of_mem _ h1)
+      · split at h
+        · rcases ih _ _ _ h k hk with h1 | h1
+          · rcases List.mem_append.mp h1 with h2 | h2
+            · exact Or.inl h2
+            · simp at h2; subst h2; exact Or.inr List.mem_cons_self
+          · exact Or.inr (List.mem_cons_of_mem _ h1)
+        · split at h
+          · rcases ih _ _ _ h k hk with h1 | h1
+            · rcases List.mem_append.mp h1 with h2 | h2
+              · exact Or.inl h2
+              · simp at h2; subst h2; exact Or.inr List.mem_cons_self
+            · exact Or.inr (List.mem_cons_of_mem _ h1)
+          · split at h
+            · simp only [Prod.mk.injEq] at h
+              obtain ⟨_, _, hnq⟩ := h
+              subst hnq
+              rcases List.mem_append.mp hk with h2 | h2
+              · exact Or.inl h2
+              · exact Or.inr (List.mem_cons_of_mem _ h2)
+            · rcases ih _ _ _ h k hk with h1 | h1
+              · exact Or.inl h1
+              · exact Or.inr (List.mem_cons_of_mem _ h1)
+  intro k hk hempty
+  rcases gen q newQ bad false h k hk with h1 | h1
+  · exact absurd h1 (fun hx => hempty k hx)
+  · exact h1
+
 end World
 end Gittuf
 
@@ -119,20 +163,30 @@ theorem gittuf_prefix_policy : hasPrefix policyRef gittufPrefix = true := by dec
 theorem gittuf_prefix_staging : hasPrefix policyStagingRef gittufPrefix = true := by decide
 theorem gittuf_prefix_att : hasPrefix attestationsRef gittufPrefix = true := by decide
 
-/-- **Loop soundness** (repaired F2/F3 behaviour; any F1/F4/F7 variant): if the verification loop
-accepts a queue, every entry of the queue for a non-gittuf reference is either marked skipped or
-was accepted by `verifyEntry` under a policy state and an attestation state that were in force
-during the walk.  For every history, queue, starting state and fuel. -/
-theorem relLoop_sound (W : World) (v : Variant) (first : Nat)
-    (hf2 : v.f2_propagationSkipped = false) (hf3 : v.f3_fixNotVerified = false) :
-    ∀ (fuel : Nat) (q : List Nat) (st : VState), W.relLoop v first fuel q st = .ok () →
+/-- side conditions under which the loop as coded on the unchanged tree is still sound:
+no propagation entry for a branch in the queue (F2), no revoked entry in the queue (F3) -/
+def NoBranchProp (W : World) (q : List Nat) : Prop :=
+  ∀ j ∈ q, ∀ e, W.log[j]? = some e → e.kind = .prop → hasPrefix e.ref gittufPrefix = true
+
+def NoneSkipped (W : World) (q : List Nat) : Prop := ∀ j ∈ q, W.skipped j = false
+
+/-- **Loop soundness**, for every history, queue, starting state, fuel and variant: if the
+verification loop accepts a queue, every entry of the queue for a non-gittuf reference is either
+marked skipped or was accepted by `verifyEntry` under a policy state and an attestation state that
+were in force during the walk — provided propagation entries are verified (F2 repaired) or the
+queue has none for a branch, and the fix entry is verified (F3 repaired) or nothing is revoked. -/
+theorem relLoop_sound_gen (W : World) (v : Variant) (first : Nat) :
+    ∀ (fuel : Nat) (q : List Nat) (st : VState),
+      (v.f2_propagationSkipped = false ∨ NoBranchProp W q) →
+      (v.f3_fixNotVerified = false ∨ NoneSkipped W q) →
+      W.relLoop v first fuel q st = .ok () →
       ∀ j ∈ q, ∀ e, W.log[j]? = some e → hasPrefix e.ref gittufPrefix = false →
         EntryOK W v st q j e := by
   intro fuel
   induction fuel with
-  | zero => intro q st h; simp [relLoop] at h
+  | zero => intro q st _ _ h; simp [relLoop] at h
   | succ fuel ih =>
-    intro q st h j hj e he hbranch
+    intro q st hf2 hf3 h j hj e he hbranch
     cases q with
     | nil => cases hj
     | cons a rest =>
@@ -141,11 +195,19 @@ theorem relLoop_sound (W : World) (v : Variant) (first : Nat)
       · cases h
       · rename_i ea hea
         -- helper: conclude for members of `rest` from the induction hypothesis on (rest, st')
+        have hf2' : v.f2_propagationSkipped = false ∨ NoBranchProp W rest := by
+          rcases hf2 with h2 | h2
+          · exact Or.inl h2
+          · exact Or.inr (fun k hk => h2 k (List.mem_cons_of_mem _ hk))
+        have hf3' : v.f3_fixNotVerified = false ∨ NoneSkipped W rest := by
+          rcases hf3 with h3 | h3
+          · exact Or.inl h3
+          · exact Or.inr (fun k hk => h3 k (List.mem_cons_of_mem _ hk))
         have tailCase : ∀ (st' : VState), W.relLoop v first fuel rest st' = .ok () →
             (∀ P, st'.policy = some P → SeenPolicy W st (a :: rest) P) →
             SeenAtt W st (a :: rest) st'.att → j ∈ rest → EntryOK W v st (a :: rest) j e := by
           intro st' h' hp ha hjr
-          exact EntryOK.mono (fun k hk => List.mem_cons_of_mem _ hk) hp ha (ih rest st' h' j hjr e he hbranch)
+          exact EntryOK.mono (fun k hk => List.mem_cons_of_mem _ hk) hp ha (ih rest st' hf2' hf3' h' j hjr e he hbranch)
         have sameSt : (∀ P, st.policy = some P → SeenPolicy W st (a :: rest) P) := fun P hP => Or.inl hP
         have sameAtt : SeenAtt W st (a :: rest) st.att := Or.inl rfl
         -- `a` itself is a gittuf-namespace entry in the first branches, so `j ≠ a` there
@@ -155,8 +217,13 @@ theorem relLoop_sound (W : World) (v : Variant) (first : Nat)
           rcases List.mem_cons.mp hj with hja | hjr
           · subst hja
             rw [hea] at he; cases he
-            simp only [hf2, Bool.false_or, Bool.and_eq_true] at hprop
-            rw [hprop.2] at hbranch; cases hbranch
+            simp only [Bool.and_eq_true, Bool.or_eq_true, beq_iff_eq] at hprop
+            rcases hprop.2 with hp2 | hp2
+            · rcases hf2 with h2 | h2
+              · rw [h2] at hp2; cases hp2
+              · have := h2 j List.mem_cons_self e hea hprop.1
+                rw [this] at hbranch; cases hbranch
+            · rw [hp2] at hbranch; cases hbranch
           · exact tailCase st h sameSt sameAtt hjr
         · split at h
           · rename_i hstag
@@ -244,7 +311,12 @@ theorem relLoop_sound (W : World) (v : Variant) (first : Nat)
                             · rename_i hbad
                               have hbad' : bad = false := by simpa using hbad
                               subst hbad'
-                              simp only [hf3, Bool.false_eq_true, if_false] at h
+                              have hf3v : v.f3_fixNotVerified = false := by
+                                rcases hf3 with h3 | h3
+                                · exact h3
+                                · have := h3 a List.mem_cons_self
+                                  rw [this] at hskip'; cases hskip'
+                              simp only [hf3v, Bool.false_eq_true, if_false] at h
                               split at h
                               · cases h
                               · rename_i fe hfe
@@ -260,7 +332,14 @@ theorem relLoop_sound (W : World) (v : Variant) (first : Nat)
                                         have := (lookForFix_partition W ea.ref _ rest [] false fix newQ hfix)
                                         -- members of newQ come from rest
                                         exact List.mem_cons_of_mem _ (lookForFix_sub W ea.ref _ rest [] false fix newQ hfix k hk (by simp))
-                                      exact EntryOK.mono hsub sameSt sameAtt (ih newQ st h j hin e he hbranch)
+                                      have hsubr : ∀ k ∈ newQ, k ∈ rest := fun k hk =>
+                                        lookForFix_sub W ea.ref _ rest [] false fix newQ hfix k hk (by simp)
+                                      have hf2n : v.f2_propagationSkipped = false ∨ NoBranchProp W newQ := by
+                                        rcases hf2' with h2 | h2
+                                        · exact Or.inl h2
+                                        · exact Or.inr (fun k hk => h2 k (hsubr k hk))
+                                      have hf3n : v.f3_fixNotVerified = false ∨ NoneSkipped W newQ := Or.inl hf3v
+                                      exact EntryOK.mono hsub sameSt sameAtt (ih newQ st hf2n hf3n h j hin e he hbranch)
                                     · subst hisfix
                                       rw [hfe] at he; cases he
                                       exact Or.inr ⟨P, st.att, Or.inl hP, Or.inl rfl, hfixver⟩
